@@ -191,6 +191,33 @@ CHECKS = {
         "Liveness is restated as 'quiescence with infinite poll timeout implies delivery'; trusts the Sim's readiness model.",
         "DESIGN.md 4 C05",
     ),
+    "C11": (
+        "sim",
+        "exploration",
+        "runtime monitoring under a controlled scheduler: application invocations ordered against the closing message "
+        "in the recorded history; single- and targeted double-pre-emption enumeration around received()",
+        "For nine kinds of closing message x what follows it x when it arrives (incl. while the closing request is still "
+        "executing, via a gated application) x lookahead 0/1/2/5, no request after the closing message may ever reach the "
+        "application. Schedules: complete single-pre-emption neighbourhoods, a targeted two-pre-emption enumeration (first "
+        "switch inside the I/O thread's received(), second within the next yield points after it resumes), random walk, PCT.",
+        "Trusts the scenario's knowledge of which message closes; for injected worker-side send errors the decision point "
+        "is the faulting send().",
+        "DESIGN.md 4 C11",
+    ),
+    "C12": (
+        "sim",
+        "exploration",
+        "runtime monitoring under a controlled scheduler: bound asserted at a hook on write_soon/send_continue (pending "
+        "output <= watermark + that write), quiescence inspection for paused producers, payload oracle",
+        "One producing worker against the draining I/O thread: write sizes around the mark, watermarks 0/1/64/4096, "
+        "send_bytes 1/64/18000, drain patterns (always, stall-then-resume, never, FIN/RST/half-close after k bytes), "
+        "single-pre-emption enumeration + random/PCT. Pending output is sampled at every write_soon return; at "
+        "quiescence no producer may be asleep while the client reads or after it disconnected, and the request must be "
+        "aborted (worker back in the pool) after a disconnect; the client stream is the exact payload prefix.",
+        "A client that stops reading for good may keep a producer paused (no timers here); pending output only grows "
+        "inside write_soon/send_continue.",
+        "DESIGN.md 4 C12",
+    ),
 }
 
 PENDING = {}
